@@ -50,7 +50,7 @@ ANCHORS = ['pfhedge.nn.functional:leaky_clamp',
            'pfhedge.nn.modules.svi:SVIVariance.forward']
 DECIDING = ["clamp.piecewise", "leaky_clamp.piecewise", "Clamp.module", "LeakyClamp.module", "ww.band", "ww.zero_cost_is_delta",
             "svi.formula", "bilerp.formula", "box_muller.formula", "realized_volatility.sqrt"]
-REQUIRED_BRANCHES = ["clamp.inverted.mean", "clamp.inverted.max", "leaky.inverted.max", "ww.inside_band", "ww.outside_band",
+REQUIRED_BRANCHES = ["ww.cost_changed_after_construction", "clamp.inverted.mean", "clamp.inverted.max", "leaky.inverted.max", "ww.inside_band", "ww.outside_band",
                      "module.inverted.max"]
 
 
@@ -200,8 +200,16 @@ def drv_ww(ctx, k, rng):
     a = float(pick(rng, [0.1, 1.0, 10.0]))
     call = bool(rng.random() < 0.6)
     K = float(pick(rng, [1.0, 1.0, 0.8, 1.3]))
-    d = EuropeanOption(BrownianStock(cost=cost), call=call, strike=K)
-    m = WhalleyWilmott(d, a=a)
+    if rng.random() < 0.5:
+        d = EuropeanOption(BrownianStock(cost=cost), call=call, strike=K)
+        m = WhalleyWilmott(d, a=a)
+    else:
+        # the cost rate is a property of the instrument and may be changed after the module was built: the band uses the current one
+        stock = BrownianStock(cost=float(pick(rng, [0.0, 5e-4, 2e-2])))
+        d = EuropeanOption(stock, call=call, strike=K)
+        m = WhalleyWilmott(d, a=a)
+        stock.cost = cost
+        ctx.branch("ww.cost_changed_after_construction")
     n = 12
     s = t(rng.uniform(-0.3, 0.3, n), dtype)
     tt = t(10 ** rng.uniform(-2.5, 0.5, n), dtype)
